@@ -15,7 +15,8 @@ EVIDENCE = {
     "bounds": "segment x line (2-D): all coordinates free reals (finite end points, positive weights; thorough) and one operand free x the other from a lattice family (quick); "
               "segment x segment (2-D): one segment free reals x one lattice segment; segment x plane (3-D): lattice segment x free plane; polygon x line in 2-D: polygon from the "
               "enumerated lattice family of C16 (3-5 vertices), line free reals; polygon x segment in 2-D: lattice polygon, segment with one lattice and one free real end point; "
-              "polygon in 3-D and cube x line: concrete polytope, free real line through two points",
+              "polygon in 3-D and cube x line: concrete polytope, free real line through two points; polygon in 3-D x segment along the normal through a free point of the plane, "
+              "one end at a concrete height, the other at a free real height with a free non-zero weight of either sign (2 embeddings)",
     "outside": "two fully symbolic segments, free segment x free plane, polygon x fully free segment (built, tier 'attempt', undecided); two symbolic polygons; polyhedra other than the cube; collections of polytopes; rounding; overlapping collinear operands are only required to yield no spurious points",
     "assumptions": ["ProjectiveTensor.__eq__/is_multiple: lemma proved in C20"],
 }
@@ -234,6 +235,36 @@ def mk_polygon3d_line(poly, emb, moved=None):
     return case
 
 
+def mk_polygon3d_segment(poly, emb, a_height=1, polyhedron=False):
+    """lattice polygon in 3-space x segment along the normal through a free point X of the polygon's plane: from X + a n (a concrete) to X + b n with b free
+    and a free non-zero weight of either sign on that end point: the segment meets the polygon iff X is in the closed polygon and b <= 0 (for a > 0)"""
+    def case(ctx):
+        from geometer import Polygon, Point, Segment
+        o, u, v, nrm = emb
+        V3 = [[float(o[i] + x * u[i] + y * v[i]) for i in range(3)] + [1.0] for x, y in poly]
+        P = Polygon(*[Point(*w[:3]) for w in V3])
+        s, t, b, w = ctx.real("s"), ctx.real("t"), ctx.real("b"), ctx.real("w")
+        ctx.assume(ctx.neg(ctx.is_zero(w)))
+        ctx.assume(ctx.neg(ctx.is_zero(b - a_height)))
+        X = [o[i] + s * u[i] + t * v[i] for i in range(3)] + [1]
+        A = [X[i] + a_height * nrm[i] for i in range(3)] + [1]
+        B = [w * (X[i] + b * nrm[i]) for i in range(3)] + [w]
+        S = Segment(Point(mk_array(ctx, A)), Point(mk_array(ctx, B)))
+        res = P.intersect(S)
+        pts = _returned(ctx, res)
+        ctx.outcome(f"n={len(pts)}")
+        from harness.C16 import oracle_polygon
+        inside = oracle_polygon(ctx, poly, [s, t, 1])
+        crossing = ctx.le(a_height * b, 0)
+        ctx.require("polygon3d-segment:at-most-one", len(pts) <= 1)
+        ctx.require("polygon3d-segment:hit-iff-inside-and-crossing", ctx.iff(len(pts) == 1, ctx.all([inside, crossing])))
+        for r in pts:
+            ctx.require("polygon3d-segment:returned-is-piercing-point", R.proportional(ctx, r, X))
+        res2 = S.intersect(P)
+        ctx.require("polygon3d-segment:same-result-from-the-segment-side", len(res2) == len(pts))
+    return case
+
+
 def case_cube_line(ctx):
     from geometer import Cuboid, Point, Line
     cube = Cuboid(Point(0, 0, 0), Point(1, 0, 0), Point(0, 1, 0), Point(0, 0, 1))
@@ -296,5 +327,7 @@ def cases(tier, seed):
             add(f"polygon3d_line_e{j}_{i}", mk_polygon3d_line(poly, emb), tiers=Q, max_paths=1500)
     add("polygon3d_line_translated", mk_polygon3d_line(polys[0], embeds[1], moved=(1, -2, 3)), tiers=Q, max_paths=1500)
     add("polygon3d_line_lifted", mk_polygon3d_line(polys[0], embeds[0], moved=(0, 0, 2)), tiers=Q, max_paths=1500)
+    for j, emb in enumerate(embeds):
+        add(f"polygon3d_segment_e{j}", mk_polygon3d_segment(polys[0], emb, a_height=1 if j != 1 else -2), tiers=(Q, ("attempt",), T)[j], max_paths=3000)
     add("cube_line", case_cube_line, tiers=Q, max_paths=4000)
     return cs
